@@ -16,6 +16,7 @@ from props import c01
 
 ID = 'C02'
 LEVEL = 'model_checking'
+PREFORK_WORLD = {}
 RULE = ('state = (stream, timing reference, template, option vector, magnitude class, critical-instant index); '
         'transition = one segment request; non-trivial = a fetched 200 segment whose tfdt/mfhd/trun were decoded '
         'and compared with the S entry or $Number$ that produced its URL')
@@ -172,12 +173,12 @@ def plan(tier):
                          {'start': 'epoch', 'depth': '30'}):
                 if opts.get('timeline') and tmpl == 'manifest_e':
                     continue
-                items.append({'stream': stream, 'template': tmpl, 'opts': opts, 'stride': 1 if tier != 'quick' else 3,
+                items.append({'stream': stream, 'template': tmpl, 'opts': opts, 'stride': 1 if tier != 'quick' else 6,
                               'tier': tier})
     for stream, ref in (('bbb', 'bbb_a1'), ('bbb', 'bbb_t1'), ('synirr', 'synirr_a1')):
         for opts in ({'start': 'explicit', 'depth': '30'}, {'start': 'explicit', 'depth': '30', 'timeline': '1'}):
             items.append({'stream': stream, 'template': 'hand_made', 'opts': opts, 'tier': tier,
-                          'stride': 4 if tier != 'quick' else 24, 'ref': ref})
+                          'stride': 4 if tier != 'quick' else 48, 'ref': ref})
     return items
 
 
@@ -203,10 +204,12 @@ def execute(item):
 
 def set_timing_ref(w, stream, fname):
     models = w.models
-    st = models.Stream.get(directory=stream)
-    mf = models.MediaFile.get(name=fname)
-    st.timing_reference = mf.as_stream_timing_reference()
-    models.db.session.commit()
+    with w.appctx():
+        st = models.Stream.get(directory=stream)
+        mf = models.MediaFile.get(name=fname)
+        st.timing_reference = mf.as_stream_timing_reference()
+        models.db.session.commit()
+        models.db.session.remove()
 
 
 def run(ctx):
